@@ -1,0 +1,28 @@
+/*
+ * Verification hooks (compiled only with -DOF_VERIF).
+ *
+ * When OF_VERIF is not defined, OF_VERIF_EVENT() expands to nothing and
+ * the library is byte-for-byte the code it was without this header.
+ * When it is defined, a test harness may install a callback in
+ * of_verif_event_hook to observe internal events (name + up to four
+ * integers + an opaque object pointer). The library never depends on
+ * the hook's behaviour.
+ */
+#ifndef OF_VERIF_H
+#define OF_VERIF_H
+
+#ifdef OF_VERIF
+typedef void (*of_verif_event_hook_t) (const char *name, const void *obj,
+				       long a, long b, long c, long d);
+extern of_verif_event_hook_t	of_verif_event_hook;
+#define OF_VERIF_EVENT(name, obj, a, b, c, d)					\
+	do {									\
+		if (of_verif_event_hook != NULL)				\
+			of_verif_event_hook ((name), (const void*)(obj),	\
+				(long)(a), (long)(b), (long)(c), (long)(d));	\
+	} while (0)
+#else
+#define OF_VERIF_EVENT(name, obj, a, b, c, d)
+#endif
+
+#endif /* OF_VERIF_H */
